@@ -111,6 +111,23 @@ fn restart_history(h: &[usize], alpha: &Alphabet, cfgs: &[Cfg], dir: &str) -> (u
             }
         }
     }
+    // and once more after the last message: what the live server believes it has recorded must be
+    // in the file (a write the connection has not committed is visible to the live server only)
+    if vs.is_empty() {
+        let _ = std::fs::remove_file(&copy);
+        if std::fs::copy(&path, &copy).is_ok() {
+            match open_pool(&copy) {
+                Err(e) => vs.push(Violation::new("reopen-failed", format!("after the history: the store does not reopen: {e}"), case()).sig("part", "restart")),
+                Ok(mut re) => {
+                    let live_rows = read_state(&mut live, now).unwrap_or_default();
+                    let re_rows = read_state(&mut re, now).unwrap_or_default();
+                    if live_rows != re_rows {
+                        vs.push(Violation::new("rows-lost-on-reopen", format!("after the history: rows after reopen {:?} differ from the live store's {:?}", state_json(&re_rows), state_json(&live_rows)), case()).sig("part", "restart"));
+                    }
+                }
+            }
+        }
+    }
     (n, vs)
 }
 
